@@ -241,6 +241,10 @@ func (t *ImmutableTree) Iterate(fn func(key []byte, value []byte) bool) (bool, e
 			return true, nil
 		}
 	}
+	// an iteration cut short by a storage failure is not a complete iteration
+	if err := itr.Error(); err != nil {
+		return false, err
+	}
 	return false, nil
 }
 
